@@ -68,6 +68,14 @@ Theorem priority_sort_spec :
 Proof. exact priority_sort_correct. Qed.
 Print Assumptions priority_sort_spec.
 
+(* The queue handed to the scheduler, whole: a permutation of the tests, ordered by descending
+   priority, then binary id (RustBinaryId's component-wise Ord, [binary_id_cmp]), then test name. *)
+Theorem C08_queue_order :
+  forall l,
+    StronglySorted queue_le (priority_queue l) /\ Permutation (priority_queue l) l.
+Proof. exact priority_queue_sorted. Qed.
+Print Assumptions C08_queue_order.
+
 (* Scheduler liveness (used by C02): REFUTED for the faithful model. DESIGN section 6, F7:
    test-threads = 3, group 0 with max-threads 2, a (group 0, weight 1), b (group 0, weight 2),
    c (no group, weight 2); a completes, then c: every started future has completed, the queue
